@@ -1,5 +1,5 @@
 """C14 -- dimension-reduction post-processing keeps the guarantee it started from."""
-from . import wrappers, pepsolve, common
+from . import wrappers, pepsolve, common, mosekprog
 from . import c16
 
 LEVEL = "other"
@@ -19,6 +19,7 @@ def run(ctx):
     pepsolve.r_primalflow(ctx)
     pepsolve.r_heurcall(ctx)
     wrappers.r_heur(ctx)
+    mosekprog.r_heur_objective(ctx)
     wrappers.r_mainvars(ctx)
     c16.r_options(ctx)
     root = common.solve_root(ctx.repo)
